@@ -42,10 +42,9 @@ import (
 //     name it as the child may disagree with the sessions (the unchanged tree repairs this lazily
 //     - LinkAdd removes the first stored parent it finds - and may meanwhile leave the second of two
 //     rows behind).  Every other agent is held to the oracle as before.  A restart rebuilds the
-//     sessions from the table, which ends every such disagreement - except that an agent with two
-//     stored parents is restored into both Links lists; the statement does not say what a restart
-//     has to make of two rows whose removal was refused by the database, so a history ends at a
-//     restart in that state (label fault:history-ends-at-restart-with-two-stored-parents).
+//     sessions from the table, which ends every such disagreement - except for an agent with two
+//     stored parents, which stays out of step; the graph of the SESSIONS is never excused, after
+//     a restart either.
 type Fault struct {
 	At    int    `json:"at"`              // index into Ops: the event that runs under the fault (skipped events carry none)
 	Table string `json:"table,omitempty"` // TS_Agents | TS_Links
@@ -144,7 +143,6 @@ type excuses struct {
 	before           map[pvx.LinkRow]bool // TS_Links before the faulted event
 	note             string
 	outOfStep        map[int64]bool // agents whose stored rows (as the child) may disagree with the sessions
-	ended            bool           // the history ended at a restart with two stored parents
 }
 
 func newExcuses() *excuses { return &excuses{outOfStep: map[int64]bool{}} }
@@ -221,25 +219,28 @@ func (ex *excuses) settle(o obs, storedParents map[int64][]int64) {
 	}
 }
 
-// atReopen: end = the history ends here (an agent out of step has two stored parents).
-func (ex *excuses) atReopen(w *pvx.World) (end bool, err error) {
+// atReopen: a restart rebuilds the sessions from the table, which ends every known disagreement
+// between the two - except for an agent that has two stored parents: it stays out of step (the
+// table cannot be right for it), while what the restart makes of the SESSIONS is held to the
+// statement in full (at most one parent, Links <=> Parent).
+func (ex *excuses) atReopen(w *pvx.World) error {
 	if len(ex.outOfStep) == 0 {
-		return false, nil
+		return nil
 	}
 	rows, err := pvx.LinkRows(w.SQL)
 	if err != nil {
-		return false, err
+		return err
 	}
 	n := map[int64]int{}
 	for _, r := range rows {
 		n[r.Child]++
-		if n[r.Child] > 1 && ex.outOfStep[r.Child] {
-			ex.ended = true
-			return true, nil
+	}
+	for c := range ex.outOfStep {
+		if n[c] < 2 {
+			delete(ex.outOfStep, c)
 		}
 	}
-	ex.outOfStep = map[int64]bool{} // the sessions' graph is the table's from here on
-	return false, nil
+	return nil
 }
 
 // ---------------------------------------------------------------- model side (labels and generator bias)
@@ -440,11 +441,12 @@ func uniform(t *rapid.T, label string, n int) int {
 }
 
 func drawPlan(t *rapid.T) *planner {
-	if uniform(t, "fault", 4) != 0 || os.Getenv("VERIF_C09_NOFAULT") != "" { // the switch is for cost measurements
+	// (the shrinker drives every bit to 0: the all-zero draws mean "no fault" and "no write lock")
+	if uniform(t, "fault", 4) != 3 || os.Getenv("VERIF_C09_NOFAULT") != "" { // the switch is for cost measurements
 		return nil
 	}
 	p := &planner{fc: faultClasses[faultDraw[uniform(t, "fault-class", len(faultDraw))]]}
-	if uniform(t, "fault-write-lock", 256) == 0 {
+	if uniform(t, "fault-write-lock", 256) == 255 {
 		p.fc = lockClass
 	}
 	p.restart = rapid.IntRange(0, 3).Draw(t, "fault-then-restart") == 0
